@@ -18,12 +18,37 @@ INVARIANT C32_LookupsSyntactic
 """
 
 
+def _ascii(x):
+    """TLC keeps only the low byte of a character when it spills states to disk (large runs): text is opaque to
+    the specification, so every non-ASCII character travels as the ASCII token @u{hex} and is restored afterwards."""
+    if isinstance(x, str):
+        return x if x.isascii() else "".join(c if ord(c) < 128 else "@u{%x}" % ord(c) for c in x)
+    if isinstance(x, list):
+        return [_ascii(v) for v in x]
+    if isinstance(x, dict):
+        return {_ascii(k): _ascii(v) for k, v in x.items()}
+    return x
+
+
+_TOKEN = __import__("re").compile(r"@u\{([0-9a-f]+)\}")
+
+
+def _unascii(x):
+    if isinstance(x, str):
+        return _TOKEN.sub(lambda m: chr(int(m.group(1), 16)), x) if "@u{" in x else x
+    if isinstance(x, list):
+        return [_unascii(v) for v in x]
+    if isinstance(x, dict):
+        return {_unascii(k): _unascii(v) for k, v in x.items()}
+    return x
+
+
 def spec_results(pid, cases, name="jinja", workers=16, timeout=1800, coverage=False):
     """TLC renders every (case, data) pair with the abstract interpreter.
     Returns ({(case id, data index): observable}, TLCResult)."""
     d = core.workdir(pid, name + "_cases")
     f = d / "cases.json"
-    f.write_text(json.dumps(cases))
+    f.write_text(json.dumps(_ascii(cases)))
     r = core.run_tlc(pid, "Jinja", CFG, workers=workers, env={"CASES_FILE": str(f)}, name=name,
                      timeout=timeout, coverage=coverage, heap="8g", args=["-continue"])
     res = {}
@@ -33,7 +58,7 @@ def spec_results(pid, cases, name="jinja", workers=16, timeout=1800, coverage=Fa
         except json.JSONDecodeError:
             continue
         if isinstance(o, dict) and "id" in o and "d" in o:
-            res[(o["id"], o["d"])] = o
+            res[(o["id"], o["d"])] = _unascii(o)
     return res, r
 
 
